@@ -27,6 +27,8 @@ C = lambda s: rc.comp(8, s)   # noqa
 BASE_PREFIX = [C(b'sync'), C(b'grp')]
 SELF = [C(b'n'), C(b'self')]
 # (peers whose names extend the own node name, or are a prefix of it, are different nodes)
+BY_PREFIX = [C(b'sync'), C(b'other')]
+BY_SELF = [C(b'n'), C(b'by')]          # (the second group hears about nodes that carry the names of the first group's peers and of its own node)
 NODES = [[C(b'n'), C(b'a')], [C(b'n'), C(b'self'), C(b'phone')], [C(b'n')], [C(b'n'), C(b'd')]]
 
 
@@ -125,7 +127,7 @@ def gen_history(rng):
         eq = {'kind': 'equal', 'pick': [0.9] * 6, 'delta': [1] * 6, 'unknown': None}
         evs += [('restart',), ('recv', eq), ('idle', 400), ('recv', gen_vector_spec(rng, nodes)), ('advance', 'past')]
     return {'nodes': nn, 'events': evs, 'last_used': rng.choice([0, 0, 0, 3, 3, 254, 65535, 2**32 - 2, 2**32 - 1, 2**32, 2**40 + 1]), 'publish_in_callback': rng.random() < 0.25,
-            'pre_start_pubs': rng.choice([0, 0, 0, 1, 2])}
+            'pre_start_pubs': rng.choice([0, 0, 0, 1, 2]), 'bystander': rng.random() < 0.3}
 
 
 def gen_vector_spec(rng, nodes):
@@ -253,6 +255,43 @@ def execute(ctx, hist, rng):
                 R['viol'].append(('publish-seq:before-start', f'new_data() before start() returned {got_seq}, expected {pre_seq} (last used {hist["last_used"]})', {'history': hist}))
         inst.start(the_app)
         await asyncio.sleep(0)
+        # a second sync group on the same application (same node names, other group prefix): its vectors are no input of the first
+        by = None
+        by_model = {}
+        by_missing = []
+        if hist.get('bystander'):
+            by = SvsInst(BY_PREFIX, BY_SELF, lambda i: by_missing.append(S.now_ms()), DigestSha256Signer(for_interest=True), pass_validator,
+                         sync_interval=30, suppression_interval=0.2)
+            by.start(the_app)
+            await asyncio.sleep(0)
+
+        async def bystander_traffic(w):
+            ents_ = [(n_, by_model.get(nid(n_), 0) + rng.randint(0, 3)) for n_ in nodes + [SELF] if rng.random() < 0.7]
+            ents_ = [(n_, s_) for n_, s_ in ents_ if s_] or [(nodes[0], by_model.get(nid(nodes[0]), 0) + 1)]
+            wire_ = bytes(make_interest(BY_PREFIX + [sv_component(ents_)], InterestParam(nonce=77, lifetime=1000), b'', DigestSha256Signer(for_interest=True)))
+            main_before = dict(inst.local_sv)
+            fired_before = len(missing)
+            nb = len(by_missing)
+            try:
+                await face.deliver(wire_)
+            except Exception as e:   # noqa
+                R['viol'].append((f'reception-raises:{type(e).__name__}@{raising_site(e)[0]}', f'(second group) {e!r}', w))
+            for _ in range(4):
+                await asyncio.sleep(0)
+            raised_ = False
+            for n_, s_ in ents_:
+                if s_ > by_model.get(nid(n_), 0):
+                    by_model[nid(n_)] = s_
+                    raised_ = True
+            ctx.event('vector-for-a-second-group-on-the-same-application')
+            nz_ = lambda d: {k: v for k, v in d.items() if v}   # noqa
+            if nz_(dict(inst.local_sv)) != nz_(main_before) or len(missing) != fired_before:
+                R['viol'].append(('second-group-vector-changed-first-group', 'a state vector received for ANOTHER sync group on the same application changed the '
+                                  'local vector of this group / fired its missing-data callback', dict(w, before={k.hex(): v for k, v in main_before.items()},
+                                                                                                          after={k.hex(): v for k, v in inst.local_sv.items()})))
+            if nz_(dict(by.local_sv)) != nz_(by_model) or (len(by_missing) > nb) != raised_:
+                R['viol'].append(('second-group-merge-wrong', 'the second sync group on the application did not merge its own vector entry-wise / fire its own callback',
+                                  dict(w, local={k.hex(): v for k, v in by.local_sv.items()}, expected={k.hex(): v for k, v in by_model.items()})))
         if pre:
             # publications made before start() are announced as soon as the instance runs (promptly, not one sync interval later)
             await asyncio.sleep(0.05)
@@ -330,6 +369,8 @@ def execute(ctx, hist, rng):
         take_emissions()
         for ei, ev in enumerate(hist['events']):
             w = {'history': hist, 'event_index': ei, 'event': ev}
+            if by is not None and rng.random() < 0.5:
+                await bystander_traffic(w)
             nerr = len(S.sentinel.all())
             if ev[0] in ('recv', 'pub-recv'):
                 ents, flags = resolve_vector(ev[1], model_local, self_seq, nodes)
@@ -573,6 +614,17 @@ def execute(ctx, hist, rng):
         if obligations:
             await asyncio.sleep((SUP_MAX_MS + 80) / 1000.0)
             check_obligations()
+        if by is not None:
+            # stopping the second group does not stop the first: one more vector for the first group is still merged
+            by.stop()
+            await asyncio.sleep(0)
+            ents_ = [(nodes[0], min(model_local.get(nid(nodes[0]), 0) + 1, 2**64 - 1))]
+            await face.deliver(bytes(make_interest(BASE_PREFIX + [sv_component(ents_)], InterestParam(nonce=78, lifetime=1000), b'', DigestSha256Signer(for_interest=True))))
+            for _ in range(4):
+                await asyncio.sleep(0)
+            ctx.event('second-group-stopped-first-goes-on')
+            if inst.local_sv.get(nid(nodes[0]), 0) != ents_[0][1]:
+                R['viol'].append(('first-group-dead-after-second-stopped', 'after stop() of another sync group on the same application this group no longer merges the vectors it receives', {'history': hist}))
         inst.stop()
         the_app.shutdown()
         await asyncio.wait_for(main_task, 5)
@@ -602,7 +654,8 @@ def run(ctx):
         svs_sync.secrets.randbits = orig
     for k in ('suppression-entered', 'vector-heard-during-suppression', 'suppression-expiry-needed', 'suppression-expiry-not-needed',
               'periodic-expiry', 'publication', 'vector-newer', 'vector-self-too-much', 'vector-self-too-much-twice', 'vector-no-seq', 'outdated-vector-answered',
-              'publication-next-to-reception', 'publication-before-start', 'instance-restarted', 'vector-with-unknown-elements-between-entries'):
+              'publication-next-to-reception', 'publication-before-start', 'instance-restarted', 'vector-with-unknown-elements-between-entries',
+              'vector-for-a-second-group-on-the-same-application', 'second-group-stopped-first-goes-on'):
         ctx.need_event(k)
     ctx.assumptions = ['when suppression is entered is read from the instance (not part of the statement)',
                        'a vector containing a malformed entry may be merged without that entry or ignored entirely',
